@@ -1005,5 +1005,39 @@ def sql_no_consume(prog: Program) -> RuleResult:
     return r
 
 
+def sql_literal_shape(prog: Program) -> RuleResult:
+    """A literal operand reaches the translator as the value the user wrote: a collection as a collection, however many members it has.
+    `in_(b.name, ['Body1'])` is membership in a collection of one text; taken out of its list the text meets the column in the
+    'text contains column' branch and the query selects every row whose name is a part of it."""
+    r = RuleResult("SQL-LITERAL-SHAPE", "the value of a literal is handed on as it is, not taken apart", floor=1)
+    ex = prog.cls("eql_interface.DomainValueExtractor")
+    f = prog.method(ex.qual, "extract_from_literal", inherited=False)
+    if f is None:
+        raise AnalysisError("SQL-LITERAL-SHAPE: DomainValueExtractor.extract_from_literal vanished")
+    # names that hold one value of the literal's domain: X = <values>[<index>], for X in <values>, (X,) = <values>
+    elems: Set[str] = set()
+    for x in walk_local(f.node):
+        if isinstance(x, ast.Assign) and len(x.targets) == 1 and isinstance(x.targets[0], ast.Name) and isinstance(x.value, ast.Subscript) and not isinstance(x.value.slice, ast.Slice):
+            elems.add(x.targets[0].id)
+    if not elems:
+        raise AnalysisError("SQL-LITERAL-SHAPE: extract_from_literal no longer takes the single value out of the domain with `<values>[0]`")
+    bad = None
+    for x in walk_local(f.node):
+        if isinstance(x, ast.Assign) and isinstance(x.value, ast.Name) and x.value.id in elems and any(isinstance(t, (ast.Tuple, ast.List)) for t in x.targets):
+            bad = bad or x
+        if isinstance(x, ast.Subscript) and isinstance(x.value, ast.Name) and x.value.id in elems:
+            bad = bad or x
+        if isinstance(x, (ast.For, ast.comprehension)) and isinstance(x.iter, ast.Name) and x.iter.id in elems:
+            bad = bad or x.iter
+        if isinstance(x, ast.Call) and call_name(x) in ("next", "iter", "min", "max", "list", "tuple", "set", "sorted") and x.args and isinstance(x.args[0], ast.Name) and x.args[0].id in elems:
+            bad = bad or x
+        if isinstance(x, ast.Starred) and isinstance(x.value, ast.Name) and x.value.id in elems:
+            bad = bad or x
+    r.check(bad is None, f"{f.short}#value-as-written", site(f, bad) if bad is not None else site(f), src(bad)[:80] if bad is not None else "", "the single value of a literal is returned whole",
+            f"`{src(bad)[:70] if bad is not None else ''}` takes the value of a literal apart: a collection of one member becomes the member, and in_(b.name, ['Body1']) is translated as "
+            "'Body1' contains name (instr) instead of name IN ('Body1') - every row whose name is a substring of the member is selected")
+    return r
+
+
 def run(prog: Program, tier: str) -> List[RuleResult]:
-    return [guard(lambda: sql_reject(prog)), guard(lambda: sql_ops(prog)), guard(lambda: sql_varid(prog)), guard(lambda: sql_alias(prog)), guard(lambda: sql_fetch(prog)), guard(lambda: sql_membership(prog)), guard(lambda: sql_chain(prog)), guard(lambda: sql_state(prog)), guard(lambda: sql_exact_dao(prog)), guard(lambda: sql_clause_truth(prog)), guard(lambda: sql_cond_attr(prog)), guard(lambda: sql_on_clause(prog)), guard(lambda: sql_no_consume(prog))]
+    return [guard(lambda: sql_literal_shape(prog)), guard(lambda: sql_reject(prog)), guard(lambda: sql_ops(prog)), guard(lambda: sql_varid(prog)), guard(lambda: sql_alias(prog)), guard(lambda: sql_fetch(prog)), guard(lambda: sql_membership(prog)), guard(lambda: sql_chain(prog)), guard(lambda: sql_state(prog)), guard(lambda: sql_exact_dao(prog)), guard(lambda: sql_clause_truth(prog)), guard(lambda: sql_cond_attr(prog)), guard(lambda: sql_on_clause(prog)), guard(lambda: sql_no_consume(prog))]
